@@ -395,11 +395,39 @@ theorem pres_rollbackValues (pre : Pre s0 w fresh0) : Preserves I (rollbackValue
         | yield b => exact ih (fun x hx => hl x (List.mem_cons_of_mem _ hx))
   exact P.bind (key w.stores (fun _ h => h)) (fun _ => P.pure _)
 
-theorem pres_removeCreatedStores : Preserves I (removeCreatedStores w) := by
+theorem storeNew_sub {st : StoreWS} (hst : st ∈ w.stores) {x : UUID} (hx : x ∈ st.root ++ st.added) : x ∈ w.newIds := by
+  unfold WS.newIds WS.rootIds WS.addedIds
+  rcases List.mem_append.mp hx with h | h
+  · exact List.mem_append_left _ (List.mem_flatMap.mpr ⟨st, hst, h⟩)
+  · exact List.mem_append_right _ (List.mem_flatMap.mpr ⟨st, hst, h⟩)
+
+theorem pres_removeCreatedStores (pre : Pre s0 w fresh0) : Preserves I (removeCreatedStores w) := by
   unfold removeCreatedStores
-  refine P.bind (P.forIn _ _ (fun st => ?_)) (fun _ => P.pure _)
-  refine P.bind (P.whenM _ ?_) (fun _ => P.pure _)
-  exact P.bind (P.attempt (P.callSame _ _ _ _ _ (fun s => ⟨rfl, rfl⟩))) (fun _ => P.pure _)
+  have key : ∀ (l : List StoreWS), (∀ st ∈ l, st ∈ w.stores) →
+      Preserves I (forIn l () (fun (st : StoreWS) (_ : Unit) => do
+        whenM st.created (do
+          let _ ← attempt (call .srRemove (.store st.store)
+            (fun s => { ((s.delRegs (st.root ++ st.added)).delBlobs (st.root ++ st.added)) with
+                          storeExists := fun k => if k = st.store then false else s.storeExists k,
+                          cnt := fun k => if k = st.store then 0 else s.cnt k })))
+        Pure.pure (ForInStep.yield ()))) := by
+    intro l
+    induction l with
+    | nil => intro _; exact P.pure _
+    | cons st t ih =>
+      intro hl
+      rw [List.forIn_cons]
+      refine P.bind ?_ (fun st' => ?_)
+      · refine P.bind (P.whenM _ ?_) (fun _ => P.pure _)
+        refine P.bind (P.attempt (P.callInv _ _ _ _ _ (fun s inv => ?_))) (fun _ => P.pure _)
+        have hsub : ∀ x ∈ st.root ++ st.added, x ∈ w.newIds := fun x hx => storeNew_sub (hl st (List.mem_cons_self ..)) hx
+        have h1 := inv.delRegs pre _ hsub
+        have h2 := h1.delBlobs_static pre _ (fun x hx => .inl (hsub x hx))
+        exact h2.of_same rfl rfl
+      · cases st' with
+        | done b => exact P.pure _
+        | yield b => exact ih (fun x hx => hl x (List.mem_cons_of_mem _ hx))
+  exact P.bind (key w.stores (fun _ h => h)) (fun _ => P.pure _)
 
 theorem pres_rollback (pre : Pre s0 w fresh0) (values : Bool) : Preserves I (rollback w values) := by
   unfold rollback
@@ -415,7 +443,7 @@ theorem pres_rollback (pre : Pre s0 w fresh0) (values : Bool) : Preserves I (rol
   refine P.bind (P.whenM _ (pres_rollbackNewRoots pre)) (fun _ => ?_)
   refine P.bind (P.whenM _ (pres_rollbackValues pre)) (fun _ => ?_)
   refine P.bind (P.whenM _ (P.bind (P.attempt pres_unlockItems) (fun _ => P.pure _))) (fun _ => ?_)
-  refine P.bind (P.whenM _ pres_removeCreatedStores) (fun _ => ?_)
+  refine P.bind (P.whenM _ (pres_removeCreatedStores pre)) (fun _ => ?_)
   refine P.bind (P.attempt (P.callSame _ _ _ _ _ (fun s => ⟨rfl, rfl⟩))) (fun _ => ?_)
   exact P.modify _ (fun r => ⟨rfl, rfl⟩)
 
